@@ -67,17 +67,27 @@ def durKey (e : DurEl) : Option Rat :=
     if numbase = 0 then none
     else some (((e.v * (num : Rat) / (numbase : Rat)).num : Rat) * (2 : Rat) ^ e.dots)
 
+def allKeys : List DurEl → Option (List Rat)
+  | [] => some []
+  | e :: es =>
+    match durKey e, allKeys es with
+    | some k, some ks => some (k :: ks)
+    | _, _ => none
+
 def lcmKeys (ks : List Rat) : Nat :=
   ks.foldl (fun acc k => if k < 1 then acc else Nat.lcm acc k.floor.toNat) 4
 
 /-- divisions per quarter when no `@ppq` is declared; `units` are the beat units of all meters of the
     document (a measure rest lasts `4·beats/unit` quarters) -/
 def inferPpq (els : List DurEl) (units : List Nat) : Option Rat :=
-  match els.mapM durKey with
+  match allKeys els with
   | none => none
   | some keys =>
     match (els.zip keys).find? (fun ek => ek.1.durppq.isSome) with
-    | some (e, k) => some ((e.durppq.getD 0 : Rat) * k / 4)
+    | some (e, _) =>
+      -- the first element that also carries @dur.ppq: ppq = dur.ppq / (quarters its notation denotes)
+      let q := meiValue e.v e.dots e.tup
+      if q = 0 then none else some ((e.durppq.getD 0 : Rat) / q)
     | none => some ((lcmKeys (keys ++ units.map (fun (u : Nat) => (u : Rat))) : Rat) / 4)
 
 /-! ## State machine -/
